@@ -119,7 +119,7 @@ class LifetimeTag {
     inline void swap(Watcher &other) { std::swap(d_, other.d_); }
     inline void reset() { Watcher tmp; swap(tmp); }
 
-    inline bool isNull() const { return d_ != nullptr; }
+    inline bool isNull() const { return d_ == nullptr; }
     inline bool isAlive() const { return (d_ != nullptr && d_->alive); }
     inline operator bool () const { return isAlive(); }
 
